@@ -17,6 +17,9 @@ package main
 //      Pitch and Taper and one start
 //  H5  composed Screw3D ∘ Evaluate: right-handed helix for positive starts,
 //      period = pitch, taper shifts the radius linearly (shared with C02)
+//  H8  the bore of obj.Nut goes through: every head style is built with the
+//      height the internal thread is cut over, and the parts a head is made of
+//      (cylinder, knurl, hexagonal prism) are no taller than that height
 //
 // Not decided: profile geometry, mating in space for tapered threads.
 
@@ -343,6 +346,7 @@ func checkC18(ctx *Ctx, r *Report, tier string) {
 	}
 	r.floor("H4", 4)
 	screwSpec(ctx, r, "H5")
+	checkNutBoreThrough(ctx, r)
 	checkISOMating(ctx, r)
 	checkRowsReadOnly(ctx, r)
 	r.floor("H5", 2)
@@ -729,4 +733,121 @@ func checkRowsReadOnly(ctx *Ctx, r *Report) {
 	}
 	r.Counts["thread_record_stores"] = n
 	r.floor("H7", 8)
+}
+
+// checkNutBoreThrough (H8): obj.Nut subtracts an internal thread of length nh from a body built
+// by a head constructor. Material of the body above or below the thread is a plug across the
+// bore and meets the bolt for every tolerance. Decided in two steps: (a) each head constructor
+// Nut calls receives, as its height, the very term Screw3D receives as its length; (b) inside
+// each head constructor the parts that are joined have a height of at most the constructor's
+// height parameter (closed form of the height evaluated on a grid of radii, heights and
+// pitches, the nut's own proportions among them).
+func checkNutBoreThrough(ctx *Ctx, r *Report) {
+	fn := ctx.ssaFunc("obj", "Nut")
+	if fn == nil {
+		r.undecided("H8", "obj.Nut", 0, "not found")
+		return
+	}
+	heads := map[string]int{"HexHead3D": 1, "KnurledHead3D": 1} // index of the height parameter
+	ev := newEvalPkg(ctx, "/obj", "ISOThread", "Screw3D", "HexHead3D", "KnurledHead3D", "Difference3D", "ThreadLookup", "HexRadius", "HexHeight", "ErrMsg")
+	ev.evalRoot(fn)
+	scs := eventsOf(ev, "sdf.Screw3D")
+	if len(scs) != 1 {
+		r.undecided("H8", "obj.Nut", fn.Pos(), fmt.Sprintf("%d Screw3D calls", len(scs)))
+		return
+	}
+	length, _ := scs[0].Args[1].(*Term)
+	if length == nil {
+		r.undecided("H8", "obj.Nut", fn.Pos(), "thread length is not a scalar")
+		return
+	}
+	nHeads := 0
+	for name, hi := range heads {
+		for _, e := range eventsOf(ev, "obj."+name) {
+			nHeads++
+			h, _ := e.Args[hi].(*Term)
+			r.check("H8", "obj.Nut|"+name+"-is-as-high-as-the-thread-is-long", e.Pos, h != nil && h.Key() == length.Key(),
+				fmt.Sprintf("height argument %s, Screw3D length %s", tk(h), tk(length)))
+		}
+	}
+	_ = nHeads // a body chosen through a table of constructors is not followed; (b) still applies
+	// (b) the parts of each head
+	type part struct {
+		callee string
+		height func(e Event) Val
+	}
+	parts := []part{
+		{"sdf.Cylinder3D", func(e Event) Val { return e.Args[0] }},
+		{"obj.Hex3D", func(e Event) Val { return e.Args[1] }},
+		{"obj.Knurl3D", func(e Event) Val {
+			var k Val
+			switch a := e.Args[0].(type) {
+			case *Ptr:
+				if a.Obj != nil {
+					k = getPath(e.State.mem[a.Obj], a.Path)
+				}
+			case *Tuple:
+				if len(a.Elems) == 2 {
+					k = a.Elems[1]
+				}
+			}
+			if k == nil {
+				return nil
+			}
+			v, _ := fieldOf(k, "Length")
+			return v
+		}},
+	}
+	for name, hi := range heads {
+		hf := ctx.ssaFunc("obj", name)
+		if hf == nil {
+			r.undecided("H8", "obj."+name, 0, "not found")
+			continue
+		}
+		hev := newEvalPkg(ctx, "/obj", "Cylinder3D", "Hex3D", "Knurl3D", "Sphere3D", "Union3D", "Intersect3D", "Transform3D", "Translate3d", "ErrMsg", "DtoR")
+		hev.evalRoot(hf)
+		rn, hn := paramName(hf, 0), paramName(hf, hi)
+		n := 0
+		for _, pt := range parts {
+			for _, e := range eventsOf(hev, pt.callee) {
+				n++
+				ht := pt.height(e)
+				bad := ""
+				cases := 0
+				if ht == nil {
+					bad = " the part's height is not a scalar;"
+				}
+				for _, rad := range []float64{0.5, 1, 3.7, 12} {
+					for _, hr := range []float64{0.3, 0.8333333333333334, 1, 1.26, 2.5, 7.01} {
+						for _, pr := range []float64{0.1, 0.25, 0.3, 1} {
+							if bad != "" {
+								break
+							}
+							env := map[string]float64{rn: rad, hn: hr * rad}
+							for i := range hf.Params {
+								if i != 0 && i != hi {
+									env[paramName(hf, i)] = pr * rad
+								}
+							}
+							got, ok := evalFloat(ht, env)
+							if !ok {
+								bad = " the part's height is not a closed form of the parameters: " + shortKey(valKey(ht), 160) + ";"
+								break
+							}
+							cases++
+							if got > hr*rad*(1+1e-12) {
+								bad = fmt.Sprintf(" with radius %g, height %g, third parameter %g the part is %g high;", rad, hr*rad, pr*rad, got)
+							}
+						}
+					}
+				}
+				r.check("H8", fmt.Sprintf("obj.%s|%s-no-taller-than-the-head", name, pt.callee), e.Pos, bad == "",
+					fmt.Sprintf("height of the part evaluated on %d parameter sets;%s", cases, bad))
+			}
+		}
+		if n == 0 {
+			r.undecided("H8", "obj."+name, hf.Pos(), "no part with a height found")
+		}
+	}
+	r.floor("H8", 3)
 }
